@@ -206,6 +206,14 @@ mod text {
             let q = format!("{:.3}", x);
             let want = format!("{:.3} {} {:.3}", h, if l.is_sign_negative() { '-' } else { '+' }, l.abs());
             if q != want { return Err(format!("precision: {:?} vs {:?}", q, want)); }
+            for (got, want) in [(format!("{:+.3}", x), format!("{:+.3} {} {:.3}", h, if l.is_sign_negative() { '-' } else { '+' }, l.abs())),
+                                (format!("{:+.3e}", x), format!("{:+.3e} {} {:.3e}", h, if l.is_sign_negative() { '-' } else { '+' }, l.abs())),
+                                (format!("{:+.3E}", x), format!("{:+.3E} {} {:.3E}", h, if l.is_sign_negative() { '-' } else { '+' }, l.abs())),
+                                (format!("{:.4E}", x), format!("{:.4E} {} {:.4E}", h, if l.is_sign_negative() { '-' } else { '+' }, l.abs())),
+                                (format!("{:+e}", x), format!("{:+e} {} {:e}", h, if l.is_sign_negative() { '-' } else { '+' }, l.abs())),
+                                (format!("{:+E}", x), format!("{:+E} {} {:E}", h, if l.is_sign_negative() { '-' } else { '+' }, l.abs()))].iter() {
+                if got != want { return Err(format!("flag/precision rendering: {:?} vs {:?}", got, want)); }
+            }
             let qe = format!("{:.2e}", x);
             let wante = format!("{:.2e} {} {:.2e}", h, if l.is_sign_negative() { '-' } else { '+' }, l.abs());
             if qe != wante { return Err(format!("precision: {:?} vs {:?}", qe, wante)); }
